@@ -47,9 +47,11 @@ type c06Event struct {
 type c06Case struct {
 	Interval    time.Duration `json:"interval,omitempty"` // min=max interval (default 4s)
 	UnicastOnly bool          `json:"unicast_only,omitempty"`
-	Events      []c06Event    `json:"events"`
-	Choices     []int         `json:"choices,omitempty"`
-	Tail        time.Duration `json:"tail,omitempty"` // quiet time before the stop (default 8s)
+	// Verbose: the interface logs verbosely (what is sent and when does not depend on it).
+	Verbose bool          `json:"verbose,omitempty"`
+	Events  []c06Event    `json:"events"`
+	Choices []int         `json:"choices,omitempty"`
+	Tail    time.Duration `json:"tail,omitempty"` // quiet time before the stop (default 8s)
 	// StaticOnly (C16 wire): the interface has no wildcard stanza at all.
 	StaticOnly bool `json:"no_wildcard_stanza,omitempty"`
 	// WriteTime: every transmission stays in flight for this long.
@@ -77,6 +79,7 @@ func c06Scenario(c c06Case, keep **advWorld) *vsched.Scenario {
 			}
 			cfg := staticCfg("eth0", iv, iv)
 			cfg.UnicastOnly = c.UnicastOnly
+			cfg.Verbose = c.Verbose
 			if c.plugins != nil {
 				cfg.Plugins = c.plugins()
 			}
@@ -321,6 +324,9 @@ func (c c06Case) String() string {
 	if c.StaticOnly {
 		s = append([]string{"no-wildcard"}, s...)
 	}
+	if c.Verbose {
+		s = append([]string{"verbose"}, s...)
+	}
 	if c.WriteTime > 0 {
 		s = append([]string{"write-time=" + c.WriteTime.String()}, s...)
 	}
@@ -333,7 +339,7 @@ func (c c06Case) String() string {
 func TestVerifC06(t *testing.T) {
 	r := ev.Begin("C06", "histories")
 	defer r.End(t)
-	r.Rule = "histories = all sequences of <=K events, event = (solicitation from :: | unicast solicitation) x gap to the previous event in {0, 100ms, 1s, 2.9s, 3s-1ns, 3s, 3.1s, 6s}, or a link-state change (tear-down and re-initialisation) or a transient failure (ENOBUFS) of the next scheduled multicast transmission, each x gap {100ms, 1s, 3.1s, 6s}, injected into the real Advertiser with min=max=4s (periodic ticks at 0,4,8,... interleave) and min=max=60s (long quiet periods; quick: histories <=2), plus all sequences of <=3 (thorough 4) events over {solicitation from ::, unicast solicitation} x gap {0.1, 1, 3.1 s} and {unicast solicitation whose answer fails with EHOSTUNREACH, ENETUNREACH, EADDRNOTAVAIL, EINVAL, ENOBUFS} in normal and unicast-only mode, plus bursts of 4, 5, 6 and 9 solicitations (unicast / from :: / alternating; 0, 0.1, 1 s apart; at start and after a solicited multicast RA), under the virtual clock in the canonical schedule; oracle on virtual WriteTo timestamps to ff02::1, per connection generation from its initial RA: consecutive >= 3s apart, every trigger (tick or :: solicitation) served within 3s, unicast answers conserved; states = histories executed, transitions = scheduler steps; non-trivial = history has >=1 event; distinct = distinct history"
+	r.Rule = "histories = all sequences of <=K events, event = (solicitation from :: | unicast solicitation) x gap to the previous event in {0, 100ms, 1s, 2.9s, 3s-1ns, 3s, 3.1s, 6s}, or a link-state change (tear-down and re-initialisation) or a transient failure (ENOBUFS) of the next scheduled multicast transmission, each x gap {100ms, 1s, 3.1s, 6s}, injected into the real Advertiser with min=max=4s (periodic ticks at 0,4,8,... interleave) and min=max=60s (long quiet periods; quick: histories <=2), and min=max=4s with verbose logging (quick: histories <=2), plus all sequences of <=3 (thorough 4) events over {solicitation from ::, unicast solicitation} x gap {0.1, 1, 3.1 s} and {unicast solicitation whose answer fails with EHOSTUNREACH, ENETUNREACH, EADDRNOTAVAIL, EINVAL, ENOBUFS} in normal and unicast-only mode, plus bursts of 4, 5, 6 and 9 solicitations (unicast / from :: / alternating; 0, 0.1, 1 s apart; at start and after a solicited multicast RA), under the virtual clock in the canonical schedule; oracle on virtual WriteTo timestamps to ff02::1, per connection generation from its initial RA: consecutive >= 3s apart, every trigger (tick or :: solicitation) served within 3s, unicast answers conserved; states = histories executed, transitions = scheduler steps; non-trivial = history has >=1 event; distinct = distinct history"
 	r.Assumptions = []string{"canonical schedule per history (goroutine interleavings are C07/C08's subject)", "random delay draws at their default (0) answer, except for histories of <=2 solicitations (4-point gap grid) and of 3 solicitations (gaps 0.1 s / 2.9 s; with min=max=4s from the start and with min=max=60s from 6 s after the start), which run with every combination of draws {0, middle, maximum}"}
 	if r.Replay != nil {
 		var c c06Case
@@ -396,11 +402,16 @@ func TestVerifC06(t *testing.T) {
 		// Two advertising intervals: 4s (periodic ticks interleave with everything) and
 		// 60s (long quiet periods between multicast RAs). Quick tier: the 60s variant
 		// for histories of up to 2 events only.
-		for _, iv := range []time.Duration{0, 60 * time.Second} {
+		for _, iv := range []time.Duration{0, 60 * time.Second, -1} {
 			if iv != 0 && !r.Thorough() && len(seq) > 2 {
 				continue
 			}
+			verbose := iv < 0 // third variant: the default interval with verbose logging
+			if verbose {
+				iv = 0
+			}
 			c := mkCase(seq, iv)
+			c.Verbose = verbose
 			x, _, vs := c06Run(t, c)
 			r.Case(c.String(), len(seq) > 0)
 			r.Count("states", 1)
